@@ -229,6 +229,12 @@ class World:
                     tr.peer_close(self.delay, ConnectionResetError(104, "Connection reset by peer"))
                 return
         resp = sim.handle(data)
+        mb = self.prog.get("mbap")
+        if resp is not None and mb and tr.kind == "tcp" and len(resp) > 9 and resp[7] == 3 and resp[:4] != b"\xaa\x55\x7f\xc0":
+            # a gateway on the path that does not keep the MBAP length field right (the library's validator is documented
+            # to ignore that field): byte count only / the fixed 6 of a write echo / zero / all ones
+            ln = {"bytecount": resp[8], "six": 6, "zero": 0, "max": 0xFFFF}[mb]
+            resp = resp[:4] + ln.to_bytes(2, "big") + resp[6:]
         if resp is not None:
             tr.deliver(resp, self.delay, "sim")
 
